@@ -310,6 +310,14 @@ def cone_stream(ctx, n):
     fr = frames()
     for k in range(n):
         m = rng.choice(fr)
+        if k % 5 == 4:
+            # an axis that is almost, but not exactly, parallel to a coordinate axis (tilt 2/n rad), rational frame
+            nn = rng.choice([300, 500, 1000, 5000])
+            c_, s_ = Fraction(nn * nn - 1, nn * nn + 1), Fraction(2 * nn, nn * nn + 1)
+            rows = [[s_, 0, c_], [c_, 0, -s_], [0, 1, 0]]
+            perm = rng.choice([(0, 1, 2), (1, 0, 2), (2, 1, 0), (0, 2, 1)])
+            sg = [rng.choice([1, -1]) for _ in range(3)]
+            m = [[row[perm[j]] * sg[j] for j in range(3)] for row in rows]
         a, e1, e2 = ([float(x) for x in row] for row in m)
         v = [rng.randint(-3, 3) for _ in range(3)]
         hgt = rng.choice([1, 2, 3, 7])
